@@ -208,22 +208,24 @@ pub fn run_c06(args: &Args) -> i32 {
             items.push((b, h.clone()));
         }
     }
-    let scratches: Vec<Scratch> = (0..engine::workers()).map(|_| Scratch::new("c06")).collect();
-    engine::par_for(items.len(), args.seed, |wi, i| {
-        let (b, h) = &items[i];
-        check(*b, h, &scratches[wi]);
-    });
+    // items run in worker processes: a subject that aborts the process is charged to its item
+    let scratch = Scratch::new("c06");
+    let counts = |r: &Report| {
+        r.set("states", json!(states.len()));
+        r.set("transitions", json!(transitions.load(Ordering::SeqCst)));
+        r.set("traces_validated_against_impl", json!(traces.load(Ordering::SeqCst) * ALL_VARIANTS.len() as u64));
+        r.set("distinct_step_outcomes", json!(outcomes.len()));
+    };
+    if engine::run_items_isolated(args, &report, items.len(), &|i| check(items[i].0, &items[i].1, &scratch), &counts, &|i| ("history".to_string(), format!("history {:?}", items[i].1.iter().map(|k| w.alpha[*k].0).collect::<Vec<_>>()), w.replay_json(items[i].0, &items[i].1, json!(null)))) {
+        return 0;
+    }
     report.sample(w.replay_json(items[0].0, &items[0].1, json!(null)));
     report.sample(w.replay_json(items[items.len() - 1].0, &items[items.len() - 1].1, json!(null)));
-    report.set("states", json!(states.len()));
-    report.set("transitions", json!(transitions.load(Ordering::SeqCst)));
-    report.set("traces_validated_against_impl", json!(traces.load(Ordering::SeqCst) * ALL_VARIANTS.len() as u64));
     report.set("histories", json!(items.len()));
     report.set("depth", json!(depth));
     report.set("alphabet_size", json!(w.alpha.len()));
     report.set("base_states", json!(w.bases.len()));
     report.set("variants", json!(ALL_VARIANTS.iter().map(|v| v.name()).collect::<Vec<_>>()));
-    report.set("distinct_step_outcomes", json!(outcomes.len()));
     report.set("exhaustive", json!(true));
     report.set("rule", json!("every history of <= `depth` steps over the 38-step alphabet H from 6 base states, executed in lock-step on the six variants; every step result and, at the end of every history, the full observable dump (all elements, values, keys, counts, aliases, indexes, index searches, four traversals per node) must be identical. states = distinct dumps."));
     report.assume("values, keys, aliases and ids outside the alphabet are not covered; histories longer than the depth are not covered");
@@ -432,17 +434,18 @@ pub fn run_c05(args: &Args) -> i32 {
             items.push((b, h.clone()));
         }
     }
-    let scratches: Vec<Scratch> = (0..engine::workers()).map(|_| Scratch::new("c05")).collect();
-    engine::par_for(items.len(), args.seed, |wi, i| {
-        let (b, h) = &items[i];
-        check(*b, h, &scratches[wi]);
-    });
+    let scratch = Scratch::new("c05");
+    let counts = |r: &Report| {
+        r.set("states", json!(states.len()));
+        r.set("transitions", json!(transitions.load(Ordering::SeqCst)));
+        r.set("traces_validated_against_impl", json!(transitions.load(Ordering::SeqCst) + traces.load(Ordering::SeqCst)));
+        r.set("maintenance_operations_applied", json!(maint_applied.load(Ordering::SeqCst)));
+    };
+    if engine::run_items_isolated(args, &report, items.len(), &|i| check(items[i].0, &items[i].1, &scratch), &counts, &|i| ("history".to_string(), format!("history {:?}", items[i].1.iter().map(|k| w.alpha[*k].0).collect::<Vec<_>>()), w.replay_json(items[i].0, &items[i].1, json!(null)))) {
+        return 0;
+    }
     report.sample(json!({"history": w.replay_json(items[1].0, &items[1].1, json!(null)), "maintenance": "each of ReopenSame..RenameReopen", "follow_ups": follow.iter().map(|i| w.alpha[*i].0).collect::<Vec<_>>()}));
-    report.set("states", json!(states.len()));
-    report.set("transitions", json!(transitions.load(Ordering::SeqCst)));
-    report.set("traces_validated_against_impl", json!(transitions.load(Ordering::SeqCst) + traces.load(Ordering::SeqCst)));
     report.set("history_nodes", json!(items.len()));
-    report.set("maintenance_operations_applied", json!(maint_applied.load(Ordering::SeqCst)));
     report.set("depth", json!(depth));
     report.set("maintenance_pairs_up_to_history_length", json!(pair_depth));
     report.set("variants", json!(variants.iter().map(|v| v.name()).collect::<Vec<_>>()));
